@@ -425,7 +425,7 @@ func vC11JSON(ret any, js string) error {
 		js2 := vC11ResultHook(js)
 		if js2 != js {
 			if err := json.Unmarshal([]byte(js2), ret); err != nil {
-				return vErr
+				return vErrNext()
 			}
 			return nil
 		}
@@ -440,7 +440,7 @@ func vC11B64(b []byte) string { return `"` + base64.StdEncoding.EncodeToString(b
 func (r *vC11CR) Bind(ctx context.Context, bindings []cctypes.BoundContract) error   { return nil }
 func (r *vC11CR) Unbind(ctx context.Context, bindings []cctypes.BoundContract) error { return nil }
 func (r *vC11CR) BatchGetLatestValues(ctx context.Context, request cctypes.BatchGetLatestValuesRequest) (cctypes.BatchGetLatestValuesResult, error) {
-	return nil, vErr
+	return nil, vErrNext()
 }
 
 func (r *vC11CR) GetLatestValue(ctx context.Context, readIdentifier string, conf primitives.ConfidenceLevel, params, ret any) error {
@@ -451,7 +451,7 @@ func (r *vC11CR) GetLatestValue(ctx context.Context, readIdentifier string, conf
 	switch name + "." + method {
 	case "OffRamp." + consts.MethodNameOffRampGetAllSourceChainConfigs:
 		if w.fails(vC11KDisc, d) {
-			return vErr
+			return vErrNext()
 		}
 		var sels, cfgs []string
 		for _, s := range w.Enabled {
@@ -461,17 +461,17 @@ func (r *vC11CR) GetLatestValue(ctx context.Context, readIdentifier string, conf
 		return vC11JSON(ret, fmt.Sprintf(`{"Selectors":[%s],"SourceChainConfigs":[%s]}`, strings.Join(sels, ","), strings.Join(cfgs, ",")))
 	case "OffRamp." + consts.MethodNameOffRampGetStaticConfig:
 		if w.fails(vC11KDisc, d) {
-			return vErr
+			return vErrNext()
 		}
 		return vC11JSON(ret, fmt.Sprintf(`{"chainSelector":%d,"rmnRemote":%s,"nonceManager":%s}`, d, vC11B64(vC11Addr(4, d)), vC11B64(vC11Addr(3, d))))
 	case "OffRamp." + consts.MethodNameOffRampGetDynamicConfig:
 		if w.fails(vC11KDisc, d) {
-			return vErr
+			return vErrNext()
 		}
 		return vC11JSON(ret, fmt.Sprintf(`{"feeQuoter":%s}`, vC11B64(vC11Addr(6, d))))
 	case "OffRamp." + consts.MethodNameGetSourceChainConfig:
 		if w.fails(vC11KNextSeq, d) {
-			return vErr
+			return vErrNext()
 		}
 		s := uint64(pm["sourceChainSelector"].(cciptypes.ChainSelector))
 		en := false
@@ -481,22 +481,22 @@ func (r *vC11CR) GetLatestValue(ctx context.Context, readIdentifier string, conf
 		return vC11JSON(ret, fmt.Sprintf(`{"Router":%s,"IsEnabled":%v,"OnRamp":%s,"MinSeqNr":10}`, vC11B64(vC11Addr(5, d)), en, vC11B64(vC11Addr(1, s))))
 	case "OnRamp." + consts.MethodNameOnRampGetDynamicConfig:
 		if w.fails(vC11KOnRampDyn, r.chain) {
-			return vErr
+			return vErrNext()
 		}
 		return vC11JSON(ret, fmt.Sprintf(`{"dynamicConfig":{"feeQuoter":%s}}`, vC11B64(vC11Addr(6, r.chain))))
 	case "OnRamp." + consts.MethodNameOnRampGetDestChainConfig:
 		if w.fails(vC11KOnRampDcc, r.chain) {
-			return vErr
+			return vErrNext()
 		}
 		return vC11JSON(ret, fmt.Sprintf(`{"router":%s}`, vC11B64(vC11Addr(5, r.chain))))
 	case "OnRamp." + consts.MethodNameGetExpectedNextSequenceNumber:
 		if w.fails(vC11KExpNext, r.chain) {
-			return vErr
+			return vErrNext()
 		}
 		return vC11JSON(ret, "21")
 	case "RMNRemote." + consts.MethodNameGetCursedSubjects:
 		if w.fails(vC11KCurse, d) {
-			return vErr
+			return vErrNext()
 		}
 		var subj []string
 		b16 := func(ch uint64) string {
@@ -517,7 +517,7 @@ func (r *vC11CR) GetLatestValue(ctx context.Context, readIdentifier string, conf
 		return vC11JSON(ret, fmt.Sprintf(`{"CursedSubjects":[%s]}`, strings.Join(subj, ",")))
 	case "RMNRemote." + consts.MethodNameGetVersionedConfig:
 		if w.fails(vC11KRmn, d) {
-			return vErr
+			return vErrNext()
 		}
 		if !w.RmnSet {
 			return vC11JSON(ret, fmt.Sprintf(`{"version":0,"config":{"rmnHomeContractConfigDigest":%s,"signers":[],"f":0}}`, vC11B64(make([]byte, 32))))
@@ -528,7 +528,7 @@ func (r *vC11CR) GetLatestValue(ctx context.Context, readIdentifier string, conf
 			vC11B64(dg), vC11B64([]byte{1}), vC11B64([]byte{2})))
 	case "RMNRemote." + consts.MethodNameGetReportDigestHeader:
 		if w.fails(vC11KRmn, d) {
-			return vErr
+			return vErrNext()
 		}
 		h := cciptypes.Bytes32{}
 		if w.RmnSet {
@@ -537,7 +537,7 @@ func (r *vC11CR) GetLatestValue(ctx context.Context, readIdentifier string, conf
 		return vC11JSON(ret, fmt.Sprintf(`{"DigestHeader":"%s"}`, h.String()))
 	case "RMNProxy." + consts.MethodNameGetARM:
 		if w.fails(vC11KRmn, d) {
-			return vErr
+			return vErrNext()
 		}
 		if !w.RmnSet {
 			return vC11JSON(ret, `""`)
@@ -545,7 +545,7 @@ func (r *vC11CR) GetLatestValue(ctx context.Context, readIdentifier string, conf
 		return vC11JSON(ret, vC11B64(vC11Addr(7, d)))
 	case "Router." + consts.MethodNameRouterGetWrappedNative:
 		if w.fails(vC11KNative, r.chain) {
-			return vErr
+			return vErrNext()
 		}
 		return vC11JSON(ret, `"0xee"`)
 	case "FeeQuoter." + consts.MethodNameFeeQuoterGetTokenPrice:
@@ -555,7 +555,7 @@ func (r *vC11CR) GetLatestValue(ctx context.Context, readIdentifier string, conf
 		}
 		if len(tok) == 1 && tok[0] == 0xee { // wrapped native
 			if w.fails(vC11KNative, r.chain) {
-				return vErr
+				return vErrNext()
 			}
 			p, ok := w.Native[r.chain]
 			if !ok {
@@ -564,18 +564,18 @@ func (r *vC11CR) GetLatestValue(ctx context.Context, readIdentifier string, conf
 			return vC11JSON(ret, fmt.Sprintf(`{"timestamp":1700000000,"value":%d}`, p))
 		}
 		if w.fails(vC11KLink, d) { // LINK
-			return vErr
+			return vErrNext()
 		}
 		return vC11JSON(ret, `{"timestamp":1700000000,"value":1000000000000000000000}`)
 	case "FeeQuoter." + consts.MethodNameFeeQuoterGetStaticConfig:
 		if w.fails(vC11KLink, d) {
-			return vErr
+			return vErrNext()
 		}
 		return vC11JSON(ret, fmt.Sprintf(`{"maxFeeJuelsPerMsg":"1","linkToken":%s,"stalenessThreshold":1}`, vC11B64([]byte{0x11})))
 	case "FeeQuoter." + consts.MethodNameGetFeePriceUpdate:
 		s := uint64(pm["destChainSelector"].(cciptypes.ChainSelector))
 		if w.fails(vC11KFeeUpd, s) {
-			return vErr
+			return vErrNext()
 		}
 		if w.UpdZero[s] {
 			return vC11JSON(ret, `{"timestamp":1700000000,"value":0}`)
@@ -589,7 +589,7 @@ func (r *vC11CR) GetLatestValue(ctx context.Context, readIdentifier string, conf
 	case "NonceManager." + consts.MethodNameGetInboundNonce:
 		s := uint64(pm["sourceChainSelector"].(cciptypes.ChainSelector))
 		if w.fails(vC11KNonces, s) {
-			return vErr
+			return vErrNext()
 		}
 		return vC11JSON(ret, strconv.FormatUint(w.NonceVal, 10))
 	}
@@ -622,7 +622,7 @@ func (r *vC11CR) QueryKey(ctx context.Context, contract cctypes.BoundContract, f
 	switch contract.Name + "." + filter.Key {
 	case "OffRamp." + consts.EventNameCommitReportAccepted:
 		if w.fails(vC11KReports, d) {
-			return nil, vErr
+			return nil, vErrNext()
 		}
 		var out []cctypes.Sequence
 		ts := uint64(time.Now().Unix())
@@ -640,12 +640,12 @@ func (r *vC11CR) QueryKey(ctx context.Context, contract cctypes.BoundContract, f
 	case "OffRamp." + consts.EventNameExecutionStateChanged:
 		src, _, _ := vC11FilterArgs(filter)
 		if w.fails(vC11KExecuted, src) {
-			return nil, vErr
+			return nil, vErrNext()
 		}
 		return nil, nil
 	case "OnRamp." + consts.EventNameCCIPMessageSent:
 		if w.fails(vC11KMsgs, r.chain) {
-			return nil, vErr
+			return nil, vErrNext()
 		}
 		_, lo, hi := vC11FilterArgs(filter)
 		var out []cctypes.Sequence
@@ -686,15 +686,15 @@ func (c *vC11CW) Ready() error                   { return nil }
 func (c *vC11CW) HealthReport() map[string]error { return nil }
 func (c *vC11CW) Name() string                   { return "vC11CW" }
 func (c *vC11CW) SubmitTransaction(ctx context.Context, contractName, method string, args any, transactionID string, toAddress string, meta *cctypes.TxMeta, value *big.Int) error {
-	return vErr
+	return vErrNext()
 }
 func (c *vC11CW) GetTransactionStatus(ctx context.Context, transactionID string) (cctypes.TransactionStatus, error) {
-	return 0, vErr
+	return 0, vErrNext()
 }
 func (c *vC11CW) GetFeeComponents(ctx context.Context) (*cctypes.ChainFeeComponents, error) {
 	v, ok := c.w.Comp[c.chain]
 	if !ok || c.w.fails(vC11KFeeComp, c.chain) {
-		return nil, vErr
+		return nil, vErrNext()
 	}
 	return &cctypes.ChainFeeComponents{ExecutionFee: v[0], DataAvailabilityFee: v[1]}, nil
 }
@@ -711,7 +711,7 @@ func (p *vC11PR) GetFeedPricesUSD(ctx context.Context, tokens []cciptypes.Unknow
 		return prices, nil
 	}
 	if p.w.fails(vC11KFeed, p.w.C.Feed) {
-		return nil, vErr
+		return nil, vErrNext()
 	}
 	for i, t := range tokens {
 		// the real price reader passes the aggregator's answer on, whatever its sign
@@ -725,7 +725,7 @@ func (p *vC11PR) GetFeeQuoterTokenUpdates(ctx context.Context, tokens []cciptype
 		return nil, nil
 	}
 	if p.w.fails(vC11KFq, uint64(chain)) {
-		return nil, vErr
+		return nil, vErrNext()
 	}
 	for _, t := range p.w.Fq {
 		out[cciptypes.UnknownEncodedAddress(t)] = plugintypes.TimestampedBig{Timestamp: time.Unix(1700000000, 0).UTC(), Value: cciptypes.BigInt{Int: new(big.Int).Set(p.w.FqVal)}}
